@@ -16,6 +16,7 @@ CONSTANTS
   MaxSteps = 0
   Sample = FALSE
   Variant = "fork"
+  SplitAdd = "off"
 INVARIANT QuotaExact
 INVARIANT CostExact
 INVARIANT NeverLockedOut
